@@ -27,11 +27,11 @@ use qbase::{
 
 use crate::common::{Opts, Rng, Sink, catch, hex};
 
-const VMAX: u64 = (1 << 62) - 1;
+pub(crate) const VMAX: u64 = (1 << 62) - 1;
 
-fn vi(v: u64) -> VarInt { VarInt::from_u64(v & VMAX).unwrap() }
+pub(crate) fn vi(v: u64) -> VarInt { VarInt::from_u64(v & VMAX).unwrap() }
 
-fn pkt_type(i: u64) -> (Type, &'static str) {
+pub(crate) fn pkt_type(i: u64) -> (Type, &'static str) {
     match i {
         0 => (Type::Long(LType::V1(Ver1::INITIAL)), "I"),
         1 => (Type::Long(LType::V1(Ver1::HANDSHAKE)), "H"),
@@ -43,7 +43,7 @@ fn pkt_type(i: u64) -> (Type, &'static str) {
 }
 
 /// boundary-biased 62-bit value
-fn bv(r: &mut Rng) -> u64 {
+pub(crate) fn bv(r: &mut Rng) -> u64 {
     const B: [u64; 16] = [0, 1, 63, 64, 16383, 16384, (1 << 30) - 1, 1 << 30, (1 << 62) - 1, (1 << 62) - 2,
         (1 << 32) - 1, 1 << 32, 1 << 60, (1 << 60) + 1, 1 << 61, (1 << 61) - 1];
     match r.below(5) {
@@ -107,7 +107,7 @@ const KINDS: [ErrorKind; 17] = [
 const NATS: [NatType; 6] = [NatType::Blocked, NatType::FullCone, NatType::RestrictedCone, NatType::RestrictedPort, NatType::Symmetric, NatType::Dynamic];
 
 /// numbers of every frame type of the table (used by generators and `C05ft`)
-const FT_NUMS: [u64; 39] = [0, 1, 2, 3, 4, 5, 6, 7, 8, 9, 10, 11, 12, 13, 14, 15, 16, 17, 18, 19, 20, 21, 22, 23, 24, 25, 26, 27, 28, 29, 30,
+pub(crate) const FT_NUMS: [u64; 39] = [0, 1, 2, 3, 4, 5, 6, 7, 8, 9, 10, 11, 12, 13, 14, 15, 16, 17, 18, 19, 20, 21, 22, 23, 24, 25, 26, 27, 28, 29, 30,
     0x30, 0x31, 0x3d7e90, 0x3d7e91, 0x3d7e92, 0x3d7e93, 0x3d7e94, 0x3d7e95];
 
 fn show_efty(t: ErrorFrameType) -> String {
@@ -143,7 +143,7 @@ fn kind_of(f: &Frame) -> &'static str {
 fn b01(b: bool) -> u8 { b as u8 }
 
 /// canonical, space-separated rendering of a frame value (the Lean driver parses and prints the same)
-fn show(f: &Frame) -> String {
+pub(crate) fn show(f: &Frame) -> String {
     let k = kind_of(f);
     match f {
         Frame::Padding(_) | Frame::Ping(_) | Frame::HandshakeDone(_) => k.to_string(),
@@ -217,7 +217,7 @@ fn reason(r: &mut Rng) -> String {
 }
 
 /// (frame, well-formed?, has a self-delimiting length (may be followed by a tail)?)
-fn gen_frame(r: &mut Rng, kind: u64, sink: &mut Sink) -> (Frame, bool, bool) {
+pub(crate) fn gen_frame(r: &mut Rng, kind: u64, sink: &mut Sink) -> (Frame, bool, bool) {
     match kind {
         0 => (Frame::Padding(PaddingFrame), true, true),
         1 => (Frame::Ping(PingFrame), true, true),
@@ -307,9 +307,9 @@ fn gen_frame(r: &mut Rng, kind: u64, sink: &mut Sink) -> (Frame, bool, bool) {
         _ => (Frame::PunchDone(PunchDoneFrame::new(bv32(r), bv32(r), bv32(r))), true, true),
     }
 }
-const NKINDS: u64 = 27;
+pub(crate) const NKINDS: u64 = 27;
 
-fn nom_code(desc: &str) -> &'static str {
+pub(crate) fn nom_code(desc: &str) -> &'static str {
     match desc {
         "End of file" => "Eof",
         "Needed data size is too large" => "TooLarge",
@@ -319,7 +319,7 @@ fn nom_code(desc: &str) -> &'static str {
     }
 }
 
-fn dec_obs(input: &Bytes, pt: Type) -> (String, Option<(usize, Frame)>) {
+pub(crate) fn dec_obs(input: &Bytes, pt: Type) -> (String, Option<(usize, Frame)>) {
     let inp = input.clone();
     match catch(move || be_frame(&inp, pt)) {
         Err(_) => ("PANIC".into(), None),
@@ -338,9 +338,9 @@ fn dec_obs(input: &Bytes, pt: Type) -> (String, Option<(usize, Frame)>) {
     }
 }
 
-struct Enc { bytes: Vec<u8>, size: usize, max: usize }
+pub(crate) struct Enc { pub bytes: Vec<u8>, pub size: usize, pub max: usize }
 
-fn encode(f: &Frame) -> Result<Enc, String> {
+pub(crate) fn encode(f: &Frame) -> Result<Enc, String> {
     let f = f.clone();
     catch(move || {
         let mut v: Vec<u8> = Vec::new();
@@ -349,7 +349,7 @@ fn encode(f: &Frame) -> Result<Enc, String> {
     })
 }
 
-fn data_len(f: &Frame) -> usize {
+pub(crate) fn data_len(f: &Frame) -> usize {
     match f { Frame::Stream(_, d) | Frame::Crypto(_, d) | Frame::Datagram(_, d) => d.len(), _ => 0 }
 }
 
